@@ -23,6 +23,7 @@ import (
 //                       session reader/writer, backend writers/readers and node threads within P,F,Sel
 //           two-conns : two connections with length-2 pipelines over disjoint keys, same bounds
 //           backend-fifo : one real backend client, three senders, backend echoing; request i gets reply i
+//           odd-names : every command name over {CR, LF, x} up to length 5 at the head / in the middle of a pipeline
 //           long-pipeline : 40 requests (> the 32-entry session queue) at the default schedule, cut anywhere
 // oracle    the bytes a client receives parse (independent codec) into exactly as many replies as requests,
 //           reply k is the single-server answer to request k, nothing follows the last reply
@@ -152,6 +153,46 @@ func c01fragmentsBody(maxLen int) func() {
 		c01check(s, fmt.Sprintf("pipeline %v cut %d", pl, cut), reqs, c)
 		sched.SetOutcome(fmt.Sprintf("len=%d", len(pl)))
 	}
+}
+
+// C01 (I): every command name over {CR, LF, x} up to length 5 (363 names; none is a supported command) in the
+// middle and at the head of a pipeline: its error reply is exactly one reply and the replies around it pair up.
+func c01oddNamesBody() {
+	s, a, b := c01stack()
+	var names []string
+	var gen func(p string)
+	gen = func(p string) {
+		if len(p) > 0 {
+			names = append(names, p)
+		}
+		if len(p) == 5 {
+			return
+		}
+		for _, ch := range []string{"\r", "\n", "x"} {
+			gen(p + ch)
+		}
+	}
+	gen("")
+	name := names[sched.Choose(sched.ClsInput, len(names), "name")]
+	odd := c01req{raw: resp.Encode(resp.Cmd(name, "x")), name: "name-with-crlf"}
+	cmd := func(args ...string) c01req {
+		return c01req{raw: resp.Encode(resp.Cmd(args...)), args: args, name: strings.ToLower(args[0])}
+	}
+	var reqs []c01req
+	if sched.Choose(sched.ClsInput, 2, "shape") == 0 {
+		reqs = []c01req{odd, cmd("PING")}
+	} else {
+		reqs = []c01req{cmd("GET", a), odd, cmd("GET", b)}
+	}
+	var raw []byte
+	for _, r := range reqs {
+		raw = append(raw, r.raw...)
+	}
+	c := s.NewClient("c0")
+	c.Send(raw)
+	sched.WaitQuiescent()
+	c01check(s, fmt.Sprintf("command name %q", name), reqs, c)
+	sched.SetOutcome("ok")
 }
 
 func c01schedulesBody() {
@@ -307,6 +348,7 @@ func init() {
 		}
 		return c01fragmentsBody(2)
 	})
+	reg("C01/odd-names", sched.Bounds{}, sched.Bounds{}, func(string) func() { return c01oddNamesBody })
 	reg("C01/schedules", sched.Bounds{P: 1, F: 1, Sel: 1}, sched.Bounds{P: 2, F: 1, Sel: 1}, func(string) func() { return c01schedulesBody })
 	reg("C01/two-conns", sched.Bounds{P: 1, F: 1, Sel: 1}, sched.Bounds{P: 2, F: 1, Sel: 1}, func(string) func() { return c01twoConnsBody })
 	reg("C01/backend-fifo", sched.Bounds{P: 2, F: 2, Sel: 1}, sched.Bounds{P: 3, F: 2, Sel: 1}, func(string) func() { return c01fifoBody })
